@@ -294,7 +294,8 @@ def check_C12(tier, seed):
     quick = tier == "quick"
     vecs, gst = V.gen("SeqGen.tla", "SeqGen_fates6.cfg", "C12")
     n_vec = 500 if quick else 4096
-    n_rand = 900 if quick else 25000
+    # (thorough: four trace specifications over every line of every run - 14 000 seeded scenarios keep it near an hour)
+    n_rand = 900 if quick else 14000
     scripts = [scen.recovery_script(r, i, fate_vec=v) for i, v in enumerate(sample(vecs, n_vec, r))]
     scripts += [scen.recovery_script(r, len(scripts) + i) for i in range(n_rand)]
     # a client that only acknowledges: the acknowledgement timers of the three spaces interleaved
